@@ -24,6 +24,16 @@ for _ in range(N):
     ops += [[queries.index(q), len(docs) - rnd.choice([1, 2])] for q in fam[:6]]
     ops += rnd.sample(ops, min(4, len(ops)))      # deliberate repetitions
     print(json.dumps({'docs': docs, 'tdocs': [tag(d) for d in docs], 'queries': queries, 'ops': ops, 'threads': rnd.choice([2, 4, 8]), 'repeat': 1}, ensure_ascii=False))
+    if _ % 4 == 1:
+        # long arrays / wide objects visited sparsely first and densely afterwards (and the other way round): a table filled on demand
+        # (index texts, member positions) that is filled wrongly by a jump shows up in the later dense walk
+        n = rnd.choice([70, 100, 130, 300])
+        arr = [i * 10 for i in range(n)]; obj = {'k%d' % i: i for i in range(n)}
+        jump = ['$[-1]', '$[%d]' % (n - 1), '$[::-1]', '$[%d,%d]' % (n - 20, n - 30), '$[%d:%d]' % (n - 36, n - 30), '$[::7]', '$[?@>%d]' % (n * 9), '$..[%d]' % (n - 5), "$['k%d']" % (n - 1), '$.k%d' % (n - 2), '$[?@==%d]' % (n - 1)]
+        dense = ['$[*]', '$[60:%d]' % n, '$[:%d]' % n, '$..*', '$.*', '$[64:70]', '$[?@>=0]', '$[::1]']
+        qs = jump + dense
+        order = [rnd.randrange(len(jump)) for _ in range(3)] + [len(jump) + rnd.randrange(len(dense)) for _ in range(3)] + [rnd.randrange(len(qs)) for _ in range(6)]
+        print(json.dumps({'docs': [arr, obj, [arr, obj]], 'tdocs': [tag(arr), tag(obj), tag([arr, obj])], 'queries': qs, 'ops': [[i, rnd.randrange(3)] for i in order], 'threads': rnd.choice([2, 4]), 'repeat': 1}, ensure_ascii=False))
     if _ % 10 == 0:
         # stress history: one shared document with many distinct regular expressions, evaluated many times from 8 threads
         pats = ['a', 'b', 'ab', 'a.', '.b', 'a|b', '[ab]+', 'x*', 'b+', '(a|b)b', 'a?b', '[^a]', 'ab|a', 'c', '.', 'a.*']
